@@ -2,12 +2,53 @@
 """Generates /verif/MANIFEST.json from the table below (single source of truth for the registered checks)."""
 import json, sys
 
+BLOCK_NOTE = "Trusted: go/ssa translation + gosym/asmsym executors (validated on every run by native replay of solver models, and by `vcheck selftest` which runs the executor as a plain interpreter against native execution), z3 5.1.0/4.8.12, the reference models in harness/ref. Bounds and what lies outside them are in the evidence file."
 CHECKS = {
+ "C01": dict(
+  text="Bounded symbolic model checking of the real compressors and decoders: for every source content at each length in the bound (and the periodic long-match family) the fast and HC compressors (fresh, reused with arbitrary prior tables, pooled) are executed symbolically, the block is decoded by the real decoder (portable Go and amd64 assembly) and the result compared with the source. Verdicts are SMT unsat answers / syntactic identities; solver models are replayed natively.",
+  note=BLOCK_NOTE + " The block hashes are summarised as uninterpreted functions (over-approximation). Sources > 64 KiB are outside the bound.",
+  technique="bounded symbolic execution of go/ssa and of decode_amd64.s + SMT (z3), native replay",
+  design="DESIGN.md section 5 C01"),
+ "C03": dict(
+  text="Bounded symbolic model checking of both block decoders: arbitrary source bytes (family A) and shaped blocks that place every wide copy at every distance from the buffer ends (family S), arbitrary prior destination contents, spare capacity with symbolic canaries; for the assembly every load/store address carries a solver-checked bounds obligation against src/dict/dst[0:len). A violated obligation yields a concrete input that is replayed natively (guard pages / canaries).",
+  note=BLOCK_NOTE,
+  technique="bounded symbolic execution of go/ssa and of decode_amd64.s with per-access bounds obligations + SMT (z3), native replay",
+  design="DESIGN.md section 5 C03"),
+ "C04": dict(
+  text="Same exploration as C03 with a byte-at-a-time reference decoder as oracle executed by the same engine: accepted blocks give exactly the reference bytes and length for every prior destination content, rejected blocks (zero offset, offset before the dictionary, truncated sequence, too much output) give an error, with dictionaries.",
+  note=BLOCK_NOTE,
+  technique="bounded symbolic execution + reference-model oracle + SMT (z3), native replay",
+  design="DESIGN.md section 5 C04"),
+ "C10": dict(
+  text="For every source content in the bound and destination sizes from the bound downwards, every block the compressors emit is checked against a strict-format reference (offset range, literals-only last sequence, last 5 bytes literals, last match >= 12 bytes before the end) and decodes to the source in the reference decoder.",
+  note=BLOCK_NOTE + " Block hashes summarised as uninterpreted functions.",
+  technique="bounded symbolic execution of go/ssa + strict-format reference oracle + SMT (z3), native replay",
+  design="DESIGN.md section 5 C10"),
+ "C11": dict(
+  text="Compressors run on destinations that are sub-slices with spare capacity holding symbolic canary bytes, for destination lengths 0..bound+2: no escaping panic, canaries untouched, count <= len(dst), success at the bound, a positive count is a complete block (reference decoder).",
+  note=BLOCK_NOTE + " Block hashes summarised as uninterpreted functions.",
+  technique="bounded symbolic execution of go/ssa with symbolic canaries + SMT (z3), native replay",
+  design="DESIGN.md section 5 C11"),
+ "C12": dict(
+  text="The portable decoder (SSA) and the amd64 assembly (asmsym) are executed in one symbolic run on the same inputs and prior destination contents; outcome class, length and bytes must agree. Counterexamples are replayed natively under both build configurations and the observations diffed.",
+  note=BLOCK_NOTE,
+  technique="bounded symbolic execution of both decoders (go/ssa + decode_amd64.s) in one run + SMT (z3), dual-build native replay",
+  design="DESIGN.md section 5 C12"),
  "C13": dict(
   text="Bounded symbolic model checking of the real checksum code: ChecksumZero is compared with a reference XXH32 for every content at each length in the bound; the streaming type is covered by an inductive step (arbitrary symbolic pre-state related to a reference state, one Write / Sum32) so that histories of any length and any 64-bit total are inside the claim. Every verdict is an SMT (z3) unsat answer or a syntactic identity of the two hash-consed terms; solver models are replayed natively.",
-  note="Trusted: go/ssa translation + gosym executor (validated per run by native replay of witnesses), z3 4.8.12, the reference XXH32 in harness/ref. Single writes longer than the bound and the ARM assembly are outside the claim.",
+  note="Trusted: go/ssa translation + gosym executor (validated per run by native replay of witnesses), z3, the reference XXH32 in harness/ref. Single writes longer than the bound and the ARM assembly are outside the claim.",
   technique="bounded symbolic execution of go/ssa + SMT (z3), inductive step on streaming state, native replay",
   design="DESIGN.md section 5 C13"),
+ "C14": dict(
+  text="Block level 2-safety by self-composition: the same symbolic source, depth and destination size are compressed from two different prior states (fresh object, reused object with arbitrary table contents given as SMT arrays, dirty object in the pool) and count, error and bytes must agree. Frame-level/schedule independence is not claimed.",
+  note=BLOCK_NOTE + " Only the block-level clause of C14 is claimed; concurrency and scheduling are outside.",
+  technique="self-composition under bounded symbolic execution of go/ssa + SMT (z3), native replay",
+  design="DESIGN.md section 5 C14"),
+ "C19": dict(
+  text="One symbolic header (FLG, BD, eight size bytes, checksum byte: the complete 2^16 x 2^64 x 2^8 space) through ValidFrameHeader and Reader.Read/Size, compared with the specification's acceptance rule computed with the reference XXH32; a symbolic 32-bit first word for the non-magic clause. Complete over the stated space, decided by SMT.",
+  note="Trusted: go/ssa translation + gosym executor, z3, reference XXH32; fmt.Errorf modelled as an error wrapping its %w operand.",
+  technique="symbolic execution of go/ssa over the complete header space + SMT (z3), native replay",
+  design="DESIGN.md section 5 C19"),
 }
 
 NOT_APPLICABLE = {
